@@ -36,7 +36,7 @@ package typeutil
 // SubRealTimeByWallClock subtracts two UnixNano readings as int64 (wraps when they are more than 2^63 ns apart, e.g.
 // against the zero time); an event, so that callers can state that they do not decide by it.
 //@ func SubRealTimeByWallClock
-//@   assumed
-//@   ensures (0 - 9223372036854775808 <= unixnano(after) - unixnano(before) && unixnano(after) - unixnano(before) <= 9223372036854775807) ==> result == unixnano(after) - unixnano(before)
+//@   props C01 C02
+//@   ensures [exact-difference-unless-it-wraps] (0 - 9223372036854775808 <= unixnano(after) - unixnano(before) && unixnano(after) - unixnano(before) <= 9223372036854775807) ==> result == unixnano(after) - unixnano(before)
 //@   option event subRealTime
 //@   modifies nothing
